@@ -10,6 +10,7 @@ func usage() {
 	fmt.Fprintln(os.Stderr, `usage:
   harness exec [-digest] [-buf] [-gc n] <cmds> <out> [<expected> [<side>]]
   harness gen  <family> <seed> <count> <outdir>      (writes <outdir>/<family>-<i>.cmds and prints stats JSON)
+  harness gen  closure[:shape|:map] <seed> <count> <outdir> [depth maxstates]   (exhaustive small universes; gen_closure.go)
   harness layouts | pools | info
   harness race <seed> <goroutines> <nops>             (C16, build with -race; runtime_race.go)
   harness heap <seed> [N [keys]]                      (C17; runtime_heap.go)
